@@ -126,6 +126,9 @@ func report(eng *Engine, root, prop, tier string, seed int, results []*FuncResul
 		for k := range eng.trustedUsed {
 			assumptions = append(assumptions, "trusted contract (assumed, body not verified): "+k)
 		}
+		for k := range eng.assumedInv {
+			assumptions = append(assumptions, "representation invariant assumed at function entry, not proved to be maintained (assumes clause): "+k)
+		}
 		for k, n := range eng.unmodelled {
 			assumptions = append(assumptions, fmt.Sprintf("unmodelled call treated as havoc-everything (%d sites): %s", n, k))
 		}
